@@ -352,6 +352,66 @@ def run_pred_coll(c):
     return ck.result()
 
 
+# ------------------------------------------------------------------------------------------- 3D polygons, mixed coplanarity
+def polymix_strategy(tier):
+    from . import c16
+
+    @st.composite
+    def s(draw):
+        c = draw(c16.poly_case(tier))
+        c["embed"] = "3d"
+        c["kind"] = "polygon"
+        c["lift"] = [draw(st.sampled_from([0, 0, 1, -2])) for _ in range(12)]
+        return c
+
+    return s()
+
+
+def run_polymix(c):
+    """a polygon embedded in 3-space against a PointCollection that mixes points of its plane (inside, on the boundary, outside)
+    with points off the plane, through Polygon.contains(collection), PolygonCollection.contains(collection) and
+    PolygonCollection.contains(point): every position == the single call Polygon.contains(Point)"""
+    from . import c16
+
+    base = c16.polygon2(c)
+    emb = c16.embed(c, base)
+    if emb is None:
+        raise Skip("not embedded")
+    o, u, w = emb
+    nrm = np.cross(u, w)
+    xs = [p[0] for p in base]
+    ys = [p[1] for p in base]
+    grid = [(x, y) for x in range(int(min(xs)) - 1, int(max(xs)) + 2) for y in range(int(min(ys)) - 1, int(max(ys)) + 2)][:12]
+    lift = list(c.get("lift", [0] * 12)) + [0] * 12
+    V = np.array([np.append(o + float(p[0]) * u + float(p[1]) * w, 1.0) for p in base])
+    Q = np.array([np.append(o + x * u + y * w + lift[i] * nrm, 1.0) for i, (x, y) in enumerate(grid)])
+    poly = Polygon(V)
+    singles = []
+    for q in Q:
+        r, f = call("polygon3.contains(point)", poly.contains, Point(q))
+        if f:
+            raise Skip("single call fails (subject of C16)")
+        singles.append(bool(r))
+    singles = np.array(singles)
+    ck = Checker()
+    calls = [("Polygon.contains(collection)", lambda: poly.contains(PointCollection(Q))),
+             ("PolygonCollection.contains(collection)", lambda: PolygonCollection(np.stack([V] * len(Q))).contains(PointCollection(Q)))]
+    for name, fn in calls:
+        r, f = call(name, fn)
+        if f:
+            ck.add(f)
+            continue
+        r = np.asarray(r)
+        ck.check(r.shape == singles.shape and np.array_equal(r, singles), f"polygon3-mixed-coplanarity:{name}:position-vs-single", (r.tolist(), singles.tolist(), lift[: len(Q)]))
+    for i in (0, len(Q) - 1):
+        r, f = call("PolygonCollection.contains(point)", PolygonCollection(np.stack([V, V])).contains, Point(Q[i]))
+        if f:
+            ck.add(f)
+        else:
+            ck.check(np.asarray(r).shape == (2,) and np.all(np.asarray(r) == singles[i]), "polygon3-mixed-coplanarity:PolygonCollection.contains(point)", (np.asarray(r).tolist(), bool(singles[i])))
+    return ck.result()
+
+
 LAWS = [
     Law("collection_vs_single", lambda tier: case(tier), run, nontrivial, labels, {"quick": 3500, "thorough": 80000},
         "collection result at every position == single-object result there, with broadcasting", shard=250, mandatory=("one-axis", "several-axes", "one-axis+broadcast")),
@@ -360,6 +420,8 @@ LAWS = [
     Law("predicates_extra_arguments", lambda tier: __import__("vp.props.c10", fromlist=["x"]).mixed_case(tier), run_pred_coll, lambda c: len({p["mode"] for p in c["pos"]}) > 1,
         lambda c: [c["what"]] + sorted({p["mode"] for p in c["pos"]}) + (["2-axes"] if c.get("bcast_first") and len(c["pos"]) == 4 else []), {"quick": 700, "thorough": 12000},
         "is_collinear/is_concurrent (4 arguments), is_coplanar (5 arguments): collection positions with different truth values vs the single-object calls", shard=350),
+    Law("polygon3d_mixed_coplanarity", polymix_strategy, run_polymix, lambda c: len({x != 0 for x in c["lift"]}) > 1, lambda c: ["mixed" if len({x != 0 for x in c["lift"]}) > 1 else "uniform"],
+        {"quick": 250, "thorough": 5000}, "3D polygon vs point collections mixing in-plane and off-plane points: collection answers == single answers", shard=125, mandatory=("mixed",)),
     Law("indexing", lambda tier: idx_case(tier), run_idx, lambda c: True, lambda c: [f"{c['kind']}{c['d']}", c["how"], "2-axes" if len(c["shape"]) > 1 else "1-axis"],
         {"quick": 1500, "thorough": 25000}, "coll[i], coll[i,j], iteration yield instances of the element class with attributes intact", shard=300),
 ]
